@@ -100,8 +100,11 @@ def run_child(fn, prefix: str, target: str = "", mode: int = LOG, fail_k: int = 
 class Stepper:
     """One forked writer process in STEP mode: it blocks before every visible operation on `target`."""
 
-    def __init__(self, fn, prefix: str, target: str, timeout: float = 30.0):
+    def __init__(self, fn, prefix: str, target: str, timeout: float = 30.0, logdir: str = "/dev/shm"):
         L = lib()
+        lf = tempfile.NamedTemporaryFile(prefix="vt-steplog-", dir=logdir, delete=False)
+        self.logpath = lf.name
+        lf.close()
         self.rfd, wfd = os.pipe()
         self.ctl_r, ctl_w = os.pipe()
         go_r, self.go_w = os.pipe()
@@ -112,7 +115,8 @@ class Stepper:
             try:
                 os.close(self.rfd); os.close(self.ctl_r); os.close(self.go_w)
                 signal.alarm(int(timeout) + 5)
-                L.fsshim_configure(prefix.encode(), target.encode(), STEP, -1, 0, -1, 0, -1, -1, ctl_w, go_r)
+                logfd = os.open(self.logpath, os.O_WRONLY | os.O_APPEND)
+                L.fsshim_configure(prefix.encode(), target.encode(), STEP | LOG, -1, 0, -1, 0, -1, logfd, ctl_w, go_r)
                 try:
                     res = fn()
                     payload = json.dumps({"result": res}, default=repr)
@@ -185,6 +189,20 @@ class Stepper:
                 pass
             self.done = True
             self._close()
+
+    def log(self):
+        try:
+            with open(self.logpath, encoding="utf-8", errors="replace") as f:
+                return parse_log(f.read())
+        except OSError:
+            return []
+
+    def cleanup(self):
+        self.kill()
+        try:
+            os.unlink(self.logpath)
+        except OSError:
+            pass
 
     def _close(self):
         for fd in (self.rfd, self.ctl_r, self.go_w):
